@@ -2199,7 +2199,7 @@ fn main() {
             o.db_path = "db".to_string();
             o.create_if_missing = true;
             let db = raindb::DB::open(o).expect("open");
-            let script: Vec<(&str, Option<&str>)> = vec![("b", Some("1")), ("a", Some("2")), ("b", None), ("c", Some("3")), ("b", Some("4")), ("a", None), ("", Some("5")), ("c", Some("6")), ("a", Some("7")), ("", None)];
+            let script: Vec<(&str, Option<&str>)> = vec![("b", Some("1")), ("a", Some("2")), ("b", None), ("c", Some("3")), ("b", Some("4")), ("a", None), ("", Some("5")), ("c", Some("6")), ("a", Some("7")), ("", None), ("b", Some("")), ("d", Some("")), ("b", Some("8")), ("a", Some(""))];
             let mut state: std::collections::BTreeMap<String, String> = Default::default();
             let mut snaps = vec![];
             for (k, v) in &script {
